@@ -57,17 +57,17 @@ CLAIMS = {
    note='Trusted: TLC; tools/project.py (exact cross/dot products, 60-digit decimal square roots).'),
  "C12": dict(
    category="model_checking", design_ref="DESIGN.md §6 C12",
-   technique="TLC validates FunDep (equal coordinate + equal explicit parameters => equal decoded bits) and OnGrid (against the caller's parameters) over two-tile scenarios encoded separately with every method pair; quantiser model checked by TLC",
-   text='160 (6000) scenarios x 2 tiles x 56 points; parameters representable and not representable in 6 decimals.',
+   technique="TLC validates FunDep (equal coordinate + equal explicit parameters => equal decoded bits) and OnGrid (against the caller's parameters) and ParamsExact (stored origin / range / bits = the caller's bit patterns) over two-tile scenarios encoded separately with every method pair, also decoded with an unrelated attribute's transform skipped; quantiser model checked by TLC",
+   text='160 (6000) scenarios x 2 tiles x 56 points; parameter mantissas spread over a binade, representable and not representable in 6 decimals.',
    note='Trusted: TLC; tools/project.py.'),
  "C20": dict(
    category="model_checking", design_ref="DESIGN.md §6 C20",
    technique="TLA+ state machine of KeyframeAnimation call histories model-checked by TLC and replayed on the real class; random animations round-tripped through the real encoder/decoder and validated by TLC (frames, order, timestamps, tracks by id; quantised tracks through C04's bound)",
-   text='All 4096 call histories of length 4 replayed (returned ids / refusals compared, tracks retrievable); 500 (12000) random animations.',
+   text='All 4096 call histories of length 4 replayed (returned ids / refusals compared, tracks retrievable); 500 (12000) random animations incl. int32 tracks on the limits of the type and tracks deleted before encoding (non-contiguous ids).',
    note='Trusted: TLC; driver projection of values to ids.'),
  "C05": dict(
    category="model_checking", design_ref="DESIGN.md §6 C05",
-   technique='Frozen corpus (330 streams frozen once from the encoder over all methods/speeds/layouts + 25 legacy testdata streams, versions 1.1..2.3) decoded and compared by TLC with the frozen ordered digests; header rewrites to every version checked against the TLA+ Supported predicate; gate table sanity model-checked',
+   technique='Frozen corpus (420 small streams frozen once from the encoder over all methods/sub-methods/speeds/layouts + 25 legacy testdata streams, versions 1.1..2.3, + 69 size-covering streams: alphabets of 2^1..2^17 symbols, grid meshes up to 6k faces) decoded and compared by TLC with the frozen ordered digests; header rewrites to every version checked against the TLA+ Supported predicate; gate table sanity model-checked',
    text='Any change that alters what an existing stream decodes to (format constants, version gates, traversal order, enum values) changes a digest; unknown versions must yield UNKNOWN_VERSION.',
    note='Trusted: TLC; the digest function of the driver; the corpus frozen at the pinned commit.'),
  "C13": dict(
@@ -81,9 +81,9 @@ CLAIMS = {
    text='B => A exhaustive on the bounded tree domain; code = B on all rows; full-codec path for all four methods incl. attribute metadata keyed by unique id.',
    note='Trusted: TLC; values > 48 bytes compared through (length, hash).'),
  "C02": dict(
-   category="fault_enumeration", design_ref="DESIGN.md §6 C02",
-   technique='fault enumeration over the frozen corpus (every truncation, byte / 32-bit / varint patterns per offset, header and version rewrites, multi-site, splices) decoded through all public entry points under ASan+UBSan with a fork server; TLC (Trace_Fault) validates the Status / termination / input-untouched clauses on the recorded probes',
-   text='Each (stream, fault) pair is one probe attributed exactly; the only tolerated abnormal exit is an allocation failure; sanitizer reports, signals, hangs, uncaught exceptions and modified inputs are violations. Semantic (symbol-level) faults are covered through corrupted valid streams, not yet through TLC-enumerated symbol strings.',
+   category="fault_enumeration", design_ref="DESIGN.md §6 C02, §13.1",
+   technique='(1) TLC enumerates the semantic fault space of the Edgebreaker connectivity decoder (MC_EbDecoder: every symbol string up to 4 (5) symbols x declared counts on the guard boundaries x topology-split tables x start-face bits, standard and valence traversal; invariants Guards/GuardsV), every row is assembled into a real stream and decoded under ASan+UBSan+libstdc++ assertions, the model predicts accept/reject and the decoded faces (drift only); nested-metadata streams around and far above the nesting limit; (2) fault enumeration over the frozen corpus (every truncation, byte / 32-bit / varint patterns per offset, header and version rewrites, multi-site, splices) decoded through all public entry points under ASan+UBSan with a fork server; TLC (Trace_Fault) validates the Status / termination / input-untouched clauses on the recorded probes',
+   text='Each (stream, fault) pair is one probe attributed exactly; the only tolerated abnormal exit is an allocation failure; sanitizer reports, signals, hangs, uncaught exceptions and modified inputs are violations. Semantic faults: exhaustive within the stated bounds of MC_EbDecoder (position-only streams, no attribute seams).',
    note="Trusted: ASan/UBSan (memory safety, UB), the fork server's attribution, TLC for the record-level clauses. NDEBUG configuration."),
  "C14": dict(
    category="model_checking", design_ref="DESIGN.md §6 C14",
@@ -93,7 +93,7 @@ CLAIMS = {
  "C15": dict(
    category="model_checking", design_ref="DESIGN.md §6 C15",
    technique="TLC validates recorded write->read round trips through the real OBJ/PLY/STL encoders/decoders and through the draco_encoder/draco_decoder binaries: same attributes, same bag of triangles of per-corner value tuples (point set for clouds), residual within the format's bound",
-   text='1200 (30000) API round trips per format family plus the command-line flow on generated files.',
+   text='1200 (30000) cases, each through fresh and through reused writer objects, per format family (PLY clouds with coincident samples, compared ordered and exact) plus the command-line flow on generated files.',
    note='Trusted: TLC; tolerance-based value matching in the driver (residual judged by TLC).'),
  "C18": dict(
    category="fault_enumeration", design_ref="DESIGN.md §6 C18",
